@@ -829,3 +829,47 @@ Proof.
     intros i Hi. rewrite HS, <- Hlen. apply max_list_ge. apply in_map. apply in_seq. lia.
   - destruct (calc_size_room _ _ _ _ Hlen Hc) as (_ & _ & _ & _ & Hex). exact Hex.
 Qed.
+
+(* ---------- the rotation is confined to the block ---------- *)
+Lemma uvarint_go_le buf : forall i x s v n, uvarint_go buf i x s = (v, n) -> (n <= Z.of_nat (i + length buf))%Z.
+Proof.
+  induction buf as [|b t IH]; intros i x s v n H; cbn [uvarint_go] in H.
+  - inversion H. lia.
+  - destruct (Nat.eqb i 10); [inversion H; lia|].
+    destruct (b <? 128).
+    + destruct (Nat.eqb i 9 && (1 <? b)); inversion H; cbn [length]; lia.
+    + apply IH in H. cbn [length]. lia.
+Qed.
+
+Lemma write_at_within X : forall Y pos v, (pos + length v <= length X)%nat ->
+  write_at (X ++ Y) pos v = write_at X pos v ++ Y /\ length (write_at X pos v) = length X.
+Proof.
+  induction X as [|h t IH]; intros Y pos v Hle.
+  - cbn [length] in Hle. assert (pos = O) by lia. assert (v = []) by (destruct v; [reflexivity|cbn in Hle; lia]). subst. split; [destruct Y; reflexivity|reflexivity].
+  - destruct pos as [|p].
+    + cbn [write_at app]. cbn [Nat.add] in Hle. split.
+      * change (h :: t ++ Y) with ((h :: t) ++ Y). rewrite (skipn_app (length v) (h :: t) Y). replace (length v - length (h :: t))%nat with O by lia. cbn [skipn]. rewrite <- app_assoc. reflexivity.
+      * rewrite app_length, skipn_length. lia.
+    + cbn [write_at app]. cbn [length] in Hle. destruct (IH Y p v) as [E L]; [lia|]. rewrite E. split; [reflexivity|cbn [length]; rewrite L; reflexivity].
+Qed.
+
+(* NextRotateSwitchBlock never touches anything outside the block: the bytes that follow it are
+   returned unchanged and the block keeps its length *)
+Theorem rotate_confined block extra ret next b' e' :
+  rotate block extra ret = Ok (next, b', e') -> e' = extra /\ length b' = length block.
+Proof.
+  unfold rotate. destruct (uvarint block) as [nx n] eqn:Hu.
+  destruct (n =? 0)%Z eqn:H0; [discriminate|]. destruct (n <? 0)%Z eqn:Hn; [discriminate|].
+  apply Z.eqb_neq in H0. apply Z.ltb_ge in Hn.
+  unfold uvarint in Hu. apply uvarint_go_le in Hu. cbn [Nat.add] in Hu.
+  set (k := Z.to_nat n). assert (Hk : (k <= length block)%nat) by (subst k; lia).
+  set (b1 := skipn k block ++ repeat 0 k).
+  assert (Hb1 : length b1 = length block) by (subst b1; rewrite app_length, skipn_length, repeat_length; lia).
+  destruct (Nat.leb _ _) eqn:Hle; [|discriminate]. apply Nat.leb_le in Hle.
+  destruct ((0 <? ret) && _); [discriminate|].
+  intros H. inversion H; subst. clear H.
+  destruct (write_at_within b1 extra (find_slot (nx =? 0) b1) (rev (enc ret))) as [E L]; [lia|].
+  rewrite E. split.
+  - apply skipn_exact. lia.
+  - rewrite firstn_exact by lia. lia.
+Qed.
